@@ -107,7 +107,7 @@ ASSUMPTIONS = [
     "file cache, linecache) are cleared before every case",
     "known findings D9b/D9c/D10b/D10e (pastel cannot print a backslash in front of a tag) are excluded from the main stream",
 ]
-BUDGET_S = {"quick": 70, "thorough": 700}
+BUDGET_S = {"quick": 180, "thorough": 700}   # quick: a safety cut-off only (about 55 s on a quiet machine)
 BATCH = 400
 
 REPO = os.environ.get("CLIKIT_REPO", "/repo")
